@@ -182,7 +182,10 @@ func New(seed uint64) *Sim {
 }
 
 // Install makes s the process-wide handler. Only one Sim is active at a time.
-func (s *Sim) Install()   { rt.H = s }
+func (s *Sim) Install() {
+	rt.H = s
+	rt.ResetPools()
+}
 func (s *Sim) Uninstall() { rt.H = nil }
 
 func (s *Sim) Now() time.Time         { return Epoch.Add(s.now) }
@@ -674,6 +677,22 @@ func (s *Sim) Call(name, site string, ft reflect.Type, args []reflect.Value, rea
 		return real(args)
 	case "ulid.Make":
 		return []reflect.Value{reflect.ValueOf(s.makeULID())}
+	case "ulid.Now":
+		return []reflect.Value{reflect.ValueOf(uint64(s.Now().UnixMilli()))}
+	case "ulid.New", "ulid.MustNew":
+		// caller-supplied entropy (e.g. crypto/rand.Reader) is replaced by the run's seeded stream
+		a := append([]reflect.Value{}, args...)
+		if len(a) == 2 {
+			a[1] = reflect.ValueOf(&simEntropy{s}).Convert(ft.In(1))
+		}
+		return real(a)
+	case "crand.Read":
+		b := args[0].Interface().([]byte)
+		for i := range b {
+			b[i] = byte(s.idRng.Uint32())
+		}
+		var e error
+		return []reflect.Value{reflect.ValueOf(len(b)), reflect.ValueOf(&e).Elem()}
 	case "uuid.New", "uuid.NewRandom", "uuid.NewString":
 		var u uuid.UUID
 		for i := range u {
@@ -885,4 +904,14 @@ func allDigits(s string) bool {
 		}
 	}
 	return true
+}
+
+// simEntropy is an io.Reader over the run's id stream.
+type simEntropy struct{ s *Sim }
+
+func (e *simEntropy) Read(p []byte) (int, error) {
+	for i := range p {
+		p[i] = byte(e.s.idRng.Uint32())
+	}
+	return len(p), nil
 }
